@@ -205,6 +205,7 @@ type zoo struct {
 	g       *gen
 	cb      bool // allow callback types
 	maxDep  int
+	wide    bool // allow structs with 47..54 fields
 }
 
 func (z *zoo) leaf() reflect.Type {
@@ -277,11 +278,22 @@ func (z *zoo) Type(depth int) reflect.Type {
 
 func (z *zoo) Struct(depth int) reflect.Type {
 	n := 1 + z.g.d(5)
+	wide := false
+	if z.wide && z.g.d(8) == 0 {
+		// around the field count (50) at which every codec stops inlining a nested struct and
+		// compiles it as a program of its own
+		n, wide = 47+z.g.d(8), true
+	}
 	fs := make([]reflect.StructField, n)
 	for i := range fs {
 		zooUniq++
 		name := "F" + strconv.Itoa(zooUniq)
-		f := reflect.StructField{Name: name, Type: z.Type(depth + 1)}
+		f := reflect.StructField{Name: name}
+		if wide && i > 2 {
+			f.Type = z.leaf()
+		} else {
+			f.Type = z.Type(depth + 1)
+		}
 		switch z.g.d(5) {
 		case 0:
 			f.Tag = reflect.StructTag(`json:"` + strings.ToLower(name) + `,omitempty"`)
